@@ -64,12 +64,18 @@ type fieldGroupGenerator struct {
 	// This field group represents a Thrift exception.
 	IsException bool
 
+	// This field group represents the arguments or the result of a function:
+	// it gets the MethodName and EnvelopeType methods.
+	IsEnvelope bool
+
 	Doc string
 }
 
-func (f fieldGroupGenerator) checkReservedIdentifier(name string) error {
+func (f fieldGroupGenerator) checkReservedIdentifier(g Generator, name string) error {
 	_, match := reservedIdentifiers[name]
-	match = match || (f.IsException && name == "Error")
+	match = match || (f.IsException && (name == "Error" || name == "ErrorName"))
+	match = match || (f.IsEnvelope && (name == "MethodName" || name == "EnvelopeType"))
+	match = match || (!checkNoZap(g) && name == "MarshalLogObject")
 	if match {
 		return fmt.Errorf("%q is a reserved ThriftRW identifier", name)
 	}
@@ -141,7 +147,9 @@ func (f fieldGroupGenerator) DefineStruct(g Generator) error {
 		}`,
 		f,
 		TemplateFunc("tag", generateTags),
-		TemplateFunc("declFieldName", f.declFieldName),
+		TemplateFunc("declFieldName", func(fs *compile.FieldSpec) (string, error) {
+			return f.declFieldName(g, fs)
+		}),
 	)
 }
 
@@ -232,13 +240,13 @@ func compileJSONTag(f *compile.FieldSpec, name string, opts ...string) *structta
 // It replicates goName but also register all field names in the
 // fieldGroupGenerator namespace, enforcing single field definition when
 // generating Go code. TL;DR: will fail during generation, before compilation.
-func (f *fieldGroupGenerator) declFieldName(fs *compile.FieldSpec) (string, error) {
+func (f *fieldGroupGenerator) declFieldName(g Generator, fs *compile.FieldSpec) (string, error) {
 	name, fromAnnotation, err := goNameForNamedEntity(fs)
 	if err != nil {
 		return "", err
 	}
 
-	if err = f.checkReservedIdentifier(name); err == nil {
+	if err = f.checkReservedIdentifier(g, name); err == nil {
 		err = f.Reserve(name)
 	}
 
